@@ -44,7 +44,7 @@ void harness(void) {
   _Bool refused = ND_BOOL(), blocking = ND_BOOL();
   int T = ND_RANGE(0, 1000000);
   VFD(conn_immediate, cfd) = ND_BOOL();
-  p_socket_set_blocking(C, blocking); p_socket_set_timeout(C, T);
+  p_socket_set_blocking(C, nd_pbool(blocking)); p_socket_set_timeout(C, T);
   long long clock0 = vs.clock;
   vs_begin_call(FAULTS, VS_M_EINTR);
   vs.nb_call = !blocking;
@@ -83,7 +83,7 @@ void harness(void) {
   PSocket *S = NULL;
   if (established) {
     _Bool lblk = ND_BOOL();
-    p_socket_set_blocking(L, lblk);
+    p_socket_set_blocking(L, nd_pbool(lblk));
     vs_begin_call(FAULTS, VS_M_EINTR | VS_M_EAGAIN);
     vs.nb_call = !lblk;
     S = p_socket_accept(L, &err);
